@@ -684,6 +684,18 @@ class Emitter:
             return '(*(%s)&%s->%s)' % (self.cdecl(('p', nt, frozenset())), obj, nm)
         return '%s->%s' % (obj, nm)
 
+    def is_zero_init(self, e):
+        k = e.get('kind')
+        if k in ('ImplicitValueInitExpr', 'CXXNullPtrLiteralExpr', 'GNUNullExpr'):
+            return True
+        if k == 'IntegerLiteral':
+            return e.get('value') == '0'
+        if k == 'FloatingLiteral':
+            return str(e.get('value')) in ('0', '0.0')
+        if k in ('ImplicitCastExpr', 'ParenExpr', 'CStyleCastExpr', 'InitListExpr', 'ConstantExpr') and inner(e) is not None:
+            return all(self.is_zero_init(x) for x in inner(e))
+        return False
+
     def init_field(self, lhs, ftype, e):
         if e is None:
             return '/* %s default-initialised */' % lhs
@@ -704,6 +716,9 @@ class Emitter:
             if len(ii) == 1:
                 return '%s = %s;' % (lhs, self.E(ii[0]))
             if len(ii) == 0:
+                return '__builtin_memset((void*)&%s, 0, sizeof(%s));' % (lhs, lhs)
+            if all(self.is_zero_init(x) for x in ii):
+                # aggregate initialisation with nothing but zeros / value-initialised members, e.g. `T data{ 0 };`
                 return '__builtin_memset((void*)&%s, 0, sizeof(%s));' % (lhs, lhs)
             raise ExtractError('init list for field ' + lhs)
         hook = self.opts.get('field_init')
